@@ -58,8 +58,15 @@ def build(work):
     # 'v': a single synset for the taxonomy's root concept: both of its borrowed hyponyms are placeholders
     v = {'id': 'v', 'label': 'v', 'language': 'en', 'email': 'e', 'license': 'l', 'version': '1', 'meta': None,
          'synsets': [{'id': 'v-1', 'ili': 'i9', 'partOfSpeech': 'n', 'meta': None}]}
+    # 'w': a leaf (e, i6) and the root (r, i9) of the taxonomy: every hypernym chain between them runs through
+    # several different inferred synsets
+    w = {'id': 'w', 'label': 'w', 'language': 'en', 'email': 'e', 'license': 'l', 'version': '1', 'meta': None,
+         'entries': [{'id': 'w-w1', 'meta': None, 'lemma': {'writtenForm': 'wword', 'partOfSpeech': 'n'},
+                      'senses': [{'id': 'w-s1', 'synset': 'w-1', 'meta': None}]}],
+         'synsets': [{'id': 'w-1', 'ili': 'i6', 'partOfSpeech': 'n', 'meta': None},
+                     {'id': 'w-2', 'ili': 'i9', 'partOfSpeech': 'n', 'meta': None}]}
     lmf.dump({'lmf_version': '1.0', 'lexicons': [taxonomy_lexicon(), lmfgen.full_lexicon('1.0', meta=lmfgen.META_FULL),
-                                                 u, v]}, src)
+                                                 u, v, w]}, src)
     wn.add(src, progress_handler=None)
     return src
 
